@@ -199,6 +199,27 @@ def gen_case(st, i, tier="quick", op=None):
     return case
 
 
+def followups(case, st):
+    """After monitor M2 saw the caller's buffer written: the same call again on the same objects
+    with the parameters that would expose a changed input (nodata dropped/added, other stats)."""
+    rng = st["followup-m2"]
+    out = []
+    params = case["params"]
+    v = case["rasters"][1]["data"]
+    for mode in ("nodata_off", "nodata_other", "same"):
+        p2 = copy.deepcopy(params)
+        if mode == "nodata_off":
+            if params.get("nodata_values") is None:
+                continue
+            p2["nodata_values"] = None
+        elif mode == "nodata_other":
+            p2["nodata_values"] = _nodata(rng, v)
+        c = {k: x for k, x in case.items() if k != "followup"}
+        c["followup"] = {"params": p2, "rasters": [None, None]}
+        out.append(c)
+    return out
+
+
 def _nodata(rng, v):
     r = rng.random()
     if r < 0.5:
